@@ -7,7 +7,7 @@
    (reset is proved for ARBITRARY histories.) *)
 From Coq Require Import ZArith List Bool String.
 From MV Require Import Lib.STree Model.StyleModel Gen.GenStyle Model.StyleExec Model.StyleSpec.
-From MV Require Import Proofs.StyleLW Proofs.StyleReset Proofs.StylePrec Proofs.StyleGen.
+From MV Require Import Proofs.StyleLW Proofs.StyleReset Proofs.StylePrec Proofs.StyleGen Proofs.StyleOne.
 Import ListNotations.
 Open Scope string_scope.
 
@@ -16,9 +16,9 @@ Open Scope string_scope.
 (* underscore keyword == nested dictionary: a key made of separator-free segments joined by "_" is parsed by
    magic_to_dict into exactly the nested dictionary *)
 Theorem notations_equivalent_magic_to_dict :
-  forall (k0 : string) (rest : path) (o : option val),
+  forall (e : env) (k0 : string) (rest : path) (o : option val),
     Forall (fun seg => has_char us seg = false) (k0 :: rest) ->
-    magic_to_dict [(join_with "_" (k0 :: rest), Leaf o)] = [(k0, nest rest (Leaf o))].
+    magic_to_dict e [(join_with "_" (k0 :: rest), Leaf o)] = [(k0, nest rest (Leaf o))].
 Proof. exact magic_to_dict_join. Qed.
 Print Assumptions notations_equivalent_magic_to_dict.
 
@@ -95,7 +95,7 @@ Print Assumptions reset_restores_after_any_history.
 
 (* ... because reset() does not look at the current `display` object at all *)
 Theorem reset_ignores_current_settings :
-  forall t0 : tree, reset colors reset_mode defaults_schema (Node [("display", t0)]) DEFAULTS = (pristine, None).
+  forall t0 : tree, reset cenv reset_mode defaults_schema (Node [("display", t0)]) DEFAULTS = (pristine, None).
 Proof. exact reset_any_state. Qed.
 Print Assumptions reset_ignores_current_settings.
 
@@ -105,32 +105,25 @@ Theorem reset_restores_every_leaf : reset_all = true.
 Proof. exact reset_all_ok. Qed.
 Print Assumptions reset_restores_every_leaf.
 
-(* within ONE call the two notations are NOT equivalent when an underscore key is followed by the plain key with
-   the same head (open finding notations/mixed-call:underscore-then-nested): the underscore leaf is lost, while the
-   other order keeps both.  lw_all above is about one leaf per call. *)
-Theorem notations_equivalent_within_one_call_refuted :
-  leaf_is schema_BaseStyle (updated arg_nested_then_under) ["path"; "marker"; "size"] (Some (VInt 9)) = true /\
-  leaf_is schema_BaseStyle (updated arg_nested_then_under) ["path"; "line"; "width"] (Some (VInt 5)) = true /\
-  leaf_is schema_BaseStyle (updated arg_under_then_nested) ["path"; "marker"; "size"] (Some (VInt 9)) = true /\
-  leaf_is schema_BaseStyle (updated arg_under_then_nested) ["path"; "line"; "width"] None = true /\
-  magic_to_dict arg_under_then_nested = [("path", Node [("marker", Node [("size", Leaf (Some (VInt 9)))])])] /\
-  (* shallow merge: a nested dict followed by a key that re-opens its sub-dictionary `line` *)
-  leaf_is schema_BaseStyle (updated arg_nested_then_reopened) ["path"; "line"; "color"] (Some (VStr "red")) = true /\
-  leaf_is schema_BaseStyle (updated arg_nested_then_reopened) ["path"; "line"; "width"] None = true.
-Proof. exact mixed_call_witness. Qed.
-Print Assumptions notations_equivalent_within_one_call_refuted.
+(* one_call_all: within ONE call, for every style class and every ORDERED pair of different (non-alias) leaves
+   that share their first segment, in every pair of notations (underscore key / nested dict / underscore head with
+   nested rest): style.update({key1: v1, key2: v2}) gives exactly the style of the two attribute assignments -
+   both leaves survive whatever the key order (812b0e7) *)
+Theorem notations_equivalent_within_one_call_partial : one_call_all = true.
+Proof. exact one_call_all_ok. Qed.
+Print Assumptions notations_equivalent_within_one_call_partial.
 
 (* ---- the style setter: obj.style = <dict | style instance | anything else> ---- *)
 (* assigning an instance of the style class wins over everything assigned before, for every schema / state /
    instance (the dict case is `update`, covered by lw_all) *)
 Theorem style_instance_assignment_wins :
   forall (s : schema) (st inst : tree),
-    set_style colors style_setter_takes_instance s st (SInst inst) = (inst, None).
+    set_style cenv style_setter_takes_instance s st (SInst inst) = (inst, None).
 Proof. exact style_instance_takes_over. Qed.
 Print Assumptions style_instance_assignment_wins.
 
 Theorem style_setter_rejects_other_values :
-  forall (t : bool) (s : schema) (st : tree), set_style colors t s st SWrong = (st, Some EValue).
+  forall (t : bool) (s : schema) (st : tree), set_style cenv t s st SWrong = (st, Some EValue).
 Proof. exact style_wrong_rejected. Qed.
 Print Assumptions style_setter_rejects_other_values.
 
@@ -147,6 +140,16 @@ Theorem magic_to_dict_leaves_argument :
 Proof. exact magic_arg_unchanged. Qed.
 Print Assumptions magic_to_dict_leaves_argument.
 
+(* a sub-style instance assigned to another object is taken over as a copy (7961130), and
+   Collection.set_children_styles leaves the caller's dict alone (ca81229) *)
+Theorem subobject_instance_is_copied : subobject_instance_copied = true.
+Proof. exact subobject_copy_ok. Qed.
+Print Assumptions subobject_instance_is_copied.
+
+Theorem set_children_styles_leaves_caller_dict : set_children_copies_arg = true.
+Proof. exact set_children_copy_ok. Qed.
+Print Assumptions set_children_styles_leaves_caller_dict.
+
 (* the display recursion hands the show() style arguments on to collection children *)
 Theorem show_kwargs_reach_collection_children : recursion_forwards_style_kwargs = true.
 Proof. exact recursion_ok. Qed.
@@ -157,7 +160,7 @@ Theorem constructors_forward_style : ctor_forwards_style = true.
 Proof. exact ctor_ok. Qed.
 Print Assumptions constructors_forward_style.
 
-Theorem defaults_are_valid : snd (defaults_new colors reset_mode defaults_schema DEFAULTS) = None.
+Theorem defaults_are_valid : snd (defaults_new cenv reset_mode defaults_schema DEFAULTS) = None.
 Proof. exact defaults_build_ok. Qed.
 Print Assumptions defaults_are_valid.
 
@@ -182,9 +185,21 @@ Proof. exact magic_arg_inplace_witness. Qed.
 Print Assumptions record_inplace_magic_to_dict_writes_into_argument.
 
 Theorem record_style_instance_was_ignored :                   (* before 9298ef3 *)
-  forall (s : schema) (st inst : tree), set_style colors false s st (SInst inst) = (st, None).
+  forall (s : schema) (st inst : tree), set_style cenv false s st (SInst inst) = (st, None).
 Proof. exact style_instance_ignored_record. Qed.
 Print Assumptions record_style_instance_was_ignored.
+
+Theorem record_shallow_magic_to_dict_lost_leaves_in_one_call :    (* before 812b0e7 *)
+  one_call_pair env_shallow schema_BaseStyle st_base ["path"; "line"; "width"] ["path"; "marker"; "size"]
+                (VInt 5) (VInt 9) = false /\
+  one_call_pair env_shallow schema_BaseStyle st_base ["path"; "line"; "width"] ["path"; "line"; "color"]
+                (VInt 5) (VStr "red") = false /\
+  one_call_pair cenv schema_BaseStyle st_base ["path"; "line"; "width"] ["path"; "marker"; "size"]
+                (VInt 5) (VInt 9) = true /\
+  one_call_pair cenv schema_BaseStyle st_base ["path"; "line"; "width"] ["path"; "line"; "color"]
+                (VInt 5) (VStr "red") = true.
+Proof. exact one_call_shallow_witness. Qed.
+Print Assumptions record_shallow_magic_to_dict_lost_leaves_in_one_call.
 
 (* non-vacuity: the quantifiers inside the *_all terms range over non-empty sets *)
 Example c20_nonvacuous :
